@@ -1,21 +1,308 @@
-"""C02 — data channel traffic always drains (no stall after any fault history)."""
+"""C02 — data channel traffic always drains (no stall or deadlock after any fault history).
+
+Two things are checked on every case (a recorded fault schedule over two REAL endpoints, then the canonical
+fault-free continuation and a probe message per open channel):
+  * the trace correspondence of harness/sctp_check.py (every output of both real endpoints, step by step, against the
+    compiled Lean automaton whose sender functions Props/C02.lean is about), and
+  * oracles on the real run: C02 itself (quiescent, bufferedAmount 0, every reliable message delivered, probes
+    delivered), no exception escapes a handler, and — new here — the *internal* invariants that Props/C02.lean proves
+    for every reachable sender state, evaluated on the real RTCSctpTransport after every single step."""
+from __future__ import annotations
+
 from harness import sctp_check as S
+from harness import sctp_world as W
 
 LEAN_TARGETS = ["Aiortc.Props.C02"]
 DRIVERS = ["Sctp"]
+MANIFEST = {
+    "technique": "Lean 4 invariant / induction proofs over the executable line-by-line model of the SCTP send path "
+                 "(Model/Sctp/Outbound.lean) and of _mark_received / _send_sack; liveness as a progress theorem on the model's own "
+                 "sender and receiver functions joined by a lossless FIFO channel; trace correspondence of the compiled endpoint "
+                 "automaton against two real endpoints under recorded fault schedules; implementation-side oracles incl. the proved "
+                 "invariants evaluated on the real transport's private state after every step",
+    "text": "Props/C02.lean proves, for EVERY sequence of sender operations (_send; SACK = _receive_sack_chunk + flushed _sends + "
+            "_transmit; T3 expiry; a queued _transmit; with arbitrary SACK contents, clock values and message parameters incl. partial "
+            "reliability): (a) flight_accounting: _flight_size = sum of _book_size over the chunks of _sent_queue counted in flight, queued "
+            "chunks are not counted, abandoned chunks are neither counted nor marked; each of enqueue/transmit/receiveSack/t3Expired/"
+            "maybeAbandon/updateAdvAck preserves it; sent queue empty => flight 0; the saturating subtraction never truncates. "
+            "(b) timer_armed: outstanding data => T3 armed or a _transmit pending; FORWARD TSN waiting => _transmit pending; data queued "
+            "=> something outstanding or a _transmit pending (transmit_no_stall: the pinned code's stall state is unreachable). "
+            "(c) t3_progress: after _t3_expired flight = 0 < cwnd = 1200 and the queued _transmit emits the earliest outstanding "
+            "(non-abandoned) chunk before any other DATA chunk and re-arms T3; a waiting FORWARD TSN goes out first and arms T3. "
+            "(d) _receive_sack_chunk never raises (IndexError branch unreachable: loss implies a non-empty sent queue) and never "
+            "hangs; the while loop of _transmit never exhausts its fuel; all other loops are structural recursions. "
+            "(e) sack_describes_misordered: the gap blocks of _send_sack cover exactly the offsets of _sack_misordered (offsets <= 65535, "
+            "<= 296 blocks) and the sender's `seen` set is exactly their expansion. "
+            "(f) C02_drains_partial on the Tx/Rx pair with a lossless in-order channel: the canonical continuation only comes to rest "
+            "in a drained state (nothing outstanding, queued, in flight or armed), the sender and receiver invariants hold after "
+            "every number of steps of it, and from every coherent state with an empty "
+            "network one epoch (T3, _transmit, burst delivered, first SACK back) strictly advances the sender's cumulative ack within "
+            "3 + burst-length steps, for any flags / miss counters / cwnd / fast-recovery state and any receiver holes; "
+            "receiver_invariant: the receiver half of that coherence hypothesis holds after every arrival sequence.",
+    "note": "C02_drains (two full endpoints, every adversarial history, bounded drain, bufferedAmount 0, everything delivered) is stated "
+            "as a def and NOT proved. The gap between C02_drains_partial and it: re-establishment of the coherence hypothesis when the "
+            "network is next empty and emptiness of the network between epochs (a two-sided invariant over datagrams in flight), the "
+            "receiver side of FORWARD TSN, _data_channel_flush / bufferedAmount, both directions at once and the endpoint glue are covered "
+            "only by the trace correspondence plus the drain / probe oracles on the real endpoints.",
+    "design_ref": "DESIGN.md §2.0, §2 C02",
+}
+ASSUMPTIONS = [
+    "theorems (a)-(d) quantify over sequences of the sender operations SOp of Lemmas/SctpSender.lean, which list everything "
+    "Model/Sctp/Endpoint.lean does to the sender fields while the association is up (sendData, receiveSack+flush+transmit, "
+    "T3 expiry, the transmit task, ssthresh at INIT, stream-sequence reset); that the real endpoint composes them this way is "
+    "checked by the trace correspondence and by the `invariants` oracle, not proved about Endpoint.step; _t3_cancel at "
+    "association shutdown is outside (the invariants are about an association that is up)",
+    "bounded *time* is bounded number of scheduler steps: RTO values are not modelled (any armed timer may fire)",
+    "sack_describes_misordered: misordered TSNs are 32-bit values different from the cumulative TSN, duplicate free, at offsets 1..65535, "
+    "and need at most 296 gap blocks (beyond that _send_sack truncates by design, fix 00ebef2)",
+    "C02_drains_partial part 3 assumes the start state is coherent (Link.Coherent: sender invariants — proved for all reachable sender "
+    "states —, receiver's cumulative TSN equal to or ahead of the sender's by < 2^31 - |misordered|, misordered set consolidated and "
+    "duplicate free) with an empty network, no pending task and T3 armed, and that the chunk following the cumulative ack survives T3 "
+    "(is not abandoned, i.e. belongs to a reliable channel); it yields progress of ONE epoch; iteration to full drain is not a theorem",
+    "the Link abstraction delivers one direction's DATA chunks and SACKs only; FORWARD TSN is not delivered to the receiver there",
+]
+TRUSTED_EXTRA = [
+    "Model/Sctp/Outbound.lean, Inbound.lean, Endpoint.lean are line-by-line models, trusted up to the trace correspondence "
+    "(thousands of steps of two real endpoints replayed through the compiled automaton, outputs compared byte for byte)",
+    "_update_rto / RTO back-off, the asyncio event loop (tasks run in ensure_future order, handlers are atomic under the harness' "
+    "DTLS stub) and HMAC cookie validation are harness inputs, not modelled",
+    "the `invariants` oracle reads private attributes of RTCSctpTransport (_flight_size, _sent_queue, _outbound_queue, _t3_handle, "
+    "_forward_tsn_chunk, chunk._in_flight/_abandoned/_retransmit)",
+]
 RULE = ("a case is a recorded fault schedule over two REAL endpoints followed by the canonical fault-free continuation "
         "(run tasks, deliver FIFO, fire the earliest timer when idle) and a probe message per open channel; endpoint "
-        "traces are replayed through the Lean automaton; distinct = distinct schedule; non-trivial = a message was delivered")
+        "traces are replayed through the Lean automaton; after every step the proved sender invariants are evaluated on the real "
+        "transport; distinct = distinct schedule; non-trivial = a message was delivered")
+
+
+# ---------------------------------------------------------------------------------------------------
+# the proved invariants, on the real transport, after every step
+# ---------------------------------------------------------------------------------------------------
+
+_VIOLATIONS: list = []
+
+
+def sender_invariants(ep):
+    """None or a description of the first invariant of Props/C02.lean that the real sender state violates."""
+    t = ep.t
+    sent = list(t._sent_queue)
+    outq = list(t._outbound_queue)
+    if all(hasattr(c, "_in_flight") for c in sent):
+        counted = sum(c._book_size for c in sent if c._in_flight)
+        if t._flight_size != counted:
+            return (f"flight_accounting: _flight_size={t._flight_size} but the chunks of _sent_queue counted in flight sum to "
+                    f"{counted} (sent={len(sent)} outbound={len(outq)})")
+    else:
+        # a tree without the ghost flag: only the consequences that do not mention it
+        total = sum(c._book_size for c in sent)
+        if t._flight_size > total:
+            return (f"flight_accounting: _flight_size={t._flight_size} exceeds the {total} bytes of all {len(sent)} outstanding "
+                    f"chunk(s) (outbound={len(outq)})")
+    for c in outq:
+        if getattr(c, "_in_flight", False) or c._retransmit or c._abandoned:
+            return f"flight_accounting: a chunk still in _outbound_queue is in flight / marked / abandoned (tsn={c.tsn})"
+    for c in sent:
+        if c._abandoned and (getattr(c, "_in_flight", False) or c._retransmit):
+            return f"flight_accounting: abandoned chunk tsn={c.tsn} is still counted in flight or marked for retransmission"
+    if t._association_state != t.State.ESTABLISHED:
+        return None
+    pending = any(name.lstrip("_") == "transmit" for name, _ in ep.tasks)
+    armed = any(h.name == "t3" for h in ep.armed())
+    if sent and not (armed or pending):
+        return f"timer_armed: {len(sent)} chunk(s) outstanding but T3 is not armed and no _transmit is pending"
+    if t._forward_tsn_chunk is not None and not pending:
+        return "timer_armed: a FORWARD TSN is waiting but no _transmit is pending"
+    if outq and not sent and not pending:
+        return (f"timer_armed: {len(outq)} chunk(s) queued, nothing outstanding, no _transmit pending "
+                f"(_flight_size={t._flight_size}, cwnd={t._cwnd})")
+    if sent and sent[0]._abandoned and not pending:
+        return "head of _sent_queue is abandoned outside _maybe_abandon/_update_advanced_peer_ack_point"
+    if t._cwnd <= 0:
+        return f"cwnd={t._cwnd}"
+    return None
+
+
+class ProbedWorld(W.World):
+    """World that evaluates the sender invariants on the endpoint that just handled an input."""
+
+    def _after(self, name, inp, exc):
+        super()._after(name, inp, exc)
+        if len(_VIOLATIONS) < 1:
+            bad = sender_invariants(self.ep[name])
+            if bad:
+                _VIOLATIONS.append(f"endpoint {name} after step {self.steps} ({inp[0]}{' ' + str(inp[1]) if inp[0] in ('fire', 'task') else ''}): {bad}")
+
+
+def _run_probed(case):
+    orig = W.World
+    _VIOLATIONS.clear()
+    W.World = ProbedWorld
+    try:
+        r = S._run(case)
+    finally:
+        W.World = orig
+    if not isinstance(r, str):
+        r.invariant_violations = list(_VIOLATIONS)
+    return r
+
+
+def oracle_invariants(case, run):
+    v = getattr(run, "invariant_violations", None)
+    if v:
+        return "proved sender invariant violated on the real transport: " + v[0]
+    return None
+
+
+# ---------------------------------------------------------------------------------------------------
+# directed schedules (recorded with a live world, so that every op is applicable when replayed)
+# ---------------------------------------------------------------------------------------------------
+
+
+class _Rec:
+    def __init__(self, rng, wrap=False):
+        tsn = (lambda: (2**32 - rng.randrange(1, 20)) % 2**32) if wrap else (lambda: rng.randrange(2**32))
+        self.case = dict(tagA=rng.randrange(1, 2**32), tagB=rng.randrange(1, 2**32), tsnA=tsn(), tsnB=tsn())
+        self.w = W.World(dict(self.case, ops=[]))
+        self.ops = []
+
+    def do(self, *op):
+        op = list(op)
+        if self.w.apply(op):
+            self.ops.append(op)
+            return True
+        return False
+
+    def settle(self, limit=400):
+        """fault-free: run tasks, deliver FIFO (no timers)"""
+        for _ in range(limit):
+            if any(self.do("task", n) for n in "AB"):
+                continue
+            if any(self.do("deliver", n, 0) for n in "AB" if self.w.net[n]):
+                continue
+            return
+
+    def tasks(self, name):
+        while self.do("task", name):
+            pass
+
+    def connect(self):
+        self.do("start", "A")
+        self.do("start", "B")
+        self.settle()
+
+    def send(self, name, ch, size, kind="b"):
+        self.w.salt += 1
+        return self.do("send", name, ch, kind, size, self.w.salt)
+
+    def finish(self, profile):
+        return dict(self.case, ops=self.ops, profile=profile, wrap=False)
+
+
+def directed_fwd_tsn_lost(rng):
+    """partial reliability: the data AND the FORWARD TSN that skips it are lost, then traffic on a reliable channel"""
+    r = _Rec(rng)
+    r.connect()
+    r.do("create", "A", dict(label="pr", ordered=rng.random() < 0.5, maxRetransmits=0))
+    r.do("create", "A", dict(label="rel", ordered=True))
+    r.settle()
+    for _ in range(rng.randrange(1, 4)):
+        r.send("A", 0, rng.choice([1, 10, 1300]))
+        r.tasks("A")
+    while r.w.net["B"]:
+        r.do("drop", "B", 0)
+    for _ in range(rng.randrange(1, 3)):     # T3: abandon, FORWARD TSN goes out ... and is lost too
+        r.do("fire", "A", "t3")
+        r.tasks("A")
+        while r.w.net["B"]:
+            r.do("drop", "B", 0)
+    r.send("A", 1, 10)
+    r.tasks("A")
+    return r.finish("directed-fwd-tsn-lost")
+
+
+def directed_interleaved_streams(rng):
+    """complete messages of one ordered stream around a TSN of another stream, delivered in reverse"""
+    r = _Rec(rng)
+    r.connect()
+    r.do("create", "A", dict(label="s1", ordered=True))
+    r.do("create", "A", dict(label="s2", ordered=rng.random() < 0.5))
+    r.settle()
+    pattern = rng.choice([[0, 1, 0], [0, 1, 0, 1, 0], [0, 1, 1, 0], [1, 0, 1, 0]])
+    for ch in pattern:
+        r.send("A", ch, rng.choice([1, 5, 50]))
+        r.tasks("A")
+    while r.w.net["B"]:
+        r.do("deliver", "B", len(r.w.net["B"]) - 1)
+    return r.finish("directed-interleaved")
+
+
+def directed_t3_with_gaps(rng):
+    """bursts larger than cwnd, a hole at the receiver, gap-acks, T3, gap-acks again: the accounting stress"""
+    r = _Rec(rng, wrap=rng.random() < 0.3)
+    r.connect()
+    r.do("create", "A", dict(label="bulk", ordered=True))
+    r.settle()
+    r.send("A", 0, rng.choice([5000, 12000, 20000]))
+    r.tasks("A")
+    for rnd in range(rng.randrange(2, 5)):
+        q = r.w.net["B"]
+        if q:
+            r.do("drop", "B", rng.randrange(len(q)))          # a hole
+        for _ in range(len(r.w.net["B"])):
+            r.do("deliver", "B", 0)
+        for _ in range(len(r.w.net["A"])):
+            if rng.random() < 0.25:
+                r.do("drop", "A", 0)
+            else:
+                r.do("deliver", "A", 0)
+            r.tasks("A")
+        if rng.random() < 0.7:
+            r.do("fire", "A", "t3")
+            r.tasks("A")
+    return r.finish("directed-t3-gaps")
+
+
+DIRECTED = [directed_fwd_tsn_lost, directed_interleaved_streams, directed_t3_with_gaps]
+
+
+def _directed(args):
+    import random
+    seed, k = args
+    return DIRECTED[k](random.Random(seed))
 
 
 class World(S.WorldComponent):
     name = "world"
     prop = "C02"
-    theorems = ["flight_accounting", "timer_armed", "C02_drains_partial"]
+    theorems = ["flight_accounting", "timer_armed", "t3_progress", "receiveSack_never_raises", "no_crash_reachable",
+                "sack_describes_misordered", "after_transmit", "receiver_invariant", "C02_drains_partial"]
     mix = [("reliable-heavy-loss", False, 3), ("reliable", False, 2), ("reliable-heavy-loss", True, 1), ("mixed-pr", False, 2)]
-    quick = (32, 300)
-    thorough = (300, 600)
-    oracles = [S.oracle_no_crash, S.oracle_c02, S.oracle_recovers]
+    quick = (26, 300)
+    thorough = (400, 600)
+    oracles = [S.oracle_no_crash, oracle_invariants, S.oracle_c02, S.oracle_recovers]
+
+    def cases(self, rng, tier):
+        n = 6 if tier == "quick" else 100
+        args = [(rng.getrandbits(48), i % len(DIRECTED)) for i in range(n)]
+        return S.pool().map(_directed, args) + super().cases(rng, tier)
+
+    def impl_many(self, cases):
+        results = S.pool().map(_run_probed, cases, chunksize=1)
+        outs = []
+        for c, r in zip(cases, results):
+            if isinstance(r, str):
+                outs.append(r)
+            else:
+                self.runs[S.case_key(c)] = r
+                outs.append(r.expected)
+        return outs
+
+    def impl(self, case):
+        r = _run_probed(case)
+        if isinstance(r, str):
+            return r
+        self.runs[S.case_key(case)] = r
+        return r.expected
 
 
 def components(tier):
